@@ -114,10 +114,12 @@ def calculateSunVizFraction(tgt_eci_position: ndarray, sun_eci_position: ndarray
     if c < abs(a + b):
         # Montenbruck Eq. 3.93
         x = (c**2 + a**2 - b**2) / (2 * c)
-        y = sqrt(a**2 - x**2)
+        # [NOTE]: at first/last contact `x` equals `a` (and `c - x` equals `b`) up to rounding, which can
+        #   push the square root and the arccosines just outside their domains (NaN).
+        y = sqrt(max(a**2 - x**2, 0.0))
 
         # Montenbruck Eqs. 3.92 & 3.94
-        A = a**2 * arccos(x / a) + b**2 * arccos((c - x) / b) - c * y  # noqa: N806
+        A = a**2 * safeArccos(x / a) + b**2 * safeArccos((c - x) / b) - c * y  # noqa: N806
 
         # Partial occultation
         # [NOTE]: bounded because the overlap area loses precision near first/last contact
